@@ -1,7 +1,7 @@
 //! C04 — Merkle vector decommitment is complete and binding.
 use super::merkle::{build_tree, honest_auth};
 use super::{check, Out};
-use crate::compat::{assume, felt_to_word};
+use crate::compat::assume;
 use crate::inp::Inp;
 use alloc::vec::Vec;
 use starknet_crypto::Felt;
@@ -90,9 +90,10 @@ pub fn bind<const H: usize, const K: usize, const NODES: usize>(i: &mut Inp) -> 
     Out::new(ok, r.is_ok())
 }
 
-/// COMPLETE: honest leaves and honest sibling nodes are accepted for the committed root, and
-/// for no other root.
-pub fn complete<const H: usize, const K: usize, const NODES: usize, const L: usize>(i: &mut Inp) -> Out {
+/// COMPLETE: honest leaves and honest sibling nodes are accepted for the committed root.
+/// The root is COMPUTED here (independent builder), so a counterexample replays natively
+/// with the real hashes.  WRONG_ROOT = true: the commitment is any OTHER value => rejected.
+pub fn complete<const H: usize, const K: usize, const NODES: usize, const L: usize, const WRONG_ROOT: bool>(i: &mut Inp) -> Out {
     let c = draw::<H, K>(i);
     let nodes = build_tree::<H, NODES>(&c.leaves, c.f);
     let (auth, _na) = honest_auth::<H, K, NODES, L>(&nodes, &c.idx);
@@ -102,14 +103,16 @@ pub fn complete<const H: usize, const K: usize, const NODES: usize, const L: usi
         vals[k] = c.leaves[c.idx[k] as usize];
         k += 1;
     }
-    // the committed root: either the honest root (computed here, so that a counterexample
-    // replays natively with the real hashes) or any other value, chosen by a symbolic flag
-    let honest = felt_to_word(&c.values[0])[0] & 1 == 1;
-    let root = if honest { nodes[1] } else { c.extra };
+    let root = if WRONG_ROOT {
+        assume(c.extra != nodes[1]);
+        c.extra
+    } else {
+        nodes[1]
+    };
     let r = vector_commitment_decommit(commitment::<H>(root, c.f), &queries(&c.idx, &vals), Witness { authentications: auth.to_vec() });
     Out::new(
-        check(r.is_ok() == (root == nodes[1]), "honest opening: accepted iff the commitment is the root of the committed tree"),
-        r.is_ok(),
+        check(r.is_ok() == !WRONG_ROOT, if WRONG_ROOT { "honest opening accepted for a commitment that is not the tree's root" } else { "honest opening of the committed tree rejected" }),
+        true,
     )
 }
 
